@@ -44,6 +44,13 @@ def specReportJ (r : Report) : Json :=
   obj [("kind", Json.str r.kind.name), ("file", strToJson r.file), ("lineno", optJ nat r.lineno),
        ("text", optJ strToJson r.line), ("msg", strToJson r.kind.message)]
 
+/-- the `\citation` events: [file, line number, text, keys] -/
+def citesJ (evs : List Spec.Event) : Json :=
+  arr (evs.filterMap fun e =>
+    match e.item with
+    | .citation keys => some (arr [strToJson e.file, nat e.lineno, strToJson e.text, strs keys])
+    | _ => none)
+
 /-- `aux`: {files: [[name, [line…]]…], top: name} -/
 def aux (j : Json) : Except String Json := do
   let files ← parseFiles (← getArr j "files")
@@ -61,6 +68,7 @@ def aux (j : Json) : Except String Json := do
       ("data", optJ strs (Spec.data evs)),
       ("errors", arr ((Spec.reports evs).map specReportJ)),
       ("fatal", optJ (fun k => Json.str (Kind.name k)) (Spec.fatal evs)),
+      ("cites", citesJ evs),
       ("events", nat evs.length)])])
 
 def cmdName : Cmd → String
